@@ -242,6 +242,11 @@ func prepare(race bool, engine string) *build {
 		args = append(args, "-race")
 	}
 	args = append(args, "./cmd/simworker")
+	if engine == "httpsim" {
+		b.worker = filepath.Join(scratch, "httpsim.test")
+		args = append([]string{"test", "-c"}, modArgs...)
+		args = append(args, "-vet=off", "-tags", "verif", "-overlay", overlay, "-o", b.worker, "github.com/spq/pkappa2/cmd/pkappa2")
+	}
 	if out, err := run(harness, env, goBin, args...); err != nil {
 		os.RemoveAll(scratch)
 		die(2, "building the instrumented worker failed: %v\n%s", err, out)
@@ -300,9 +305,6 @@ func runCheck(prop, tier string) int {
 	}
 	budget = envInt("VERIF_BUDGET_S", budget)
 	workers := envInt("VERIF_WORKERS", runtime.NumCPU())
-	if cfg.Engine == "httpsim" {
-		return runHTTPCheck(prop, tier, cfg, seed, budget)
-	}
 	b := prepare(cfg.Race, cfg.Engine)
 	defer os.RemoveAll(b.scratch)
 
@@ -374,7 +376,7 @@ func runCheck(prop, tier string) int {
 		}
 		// minimise (bounded), then confirm by replaying the minimised file in a fresh process
 		minPath := path + ".min"
-		if reported < 4 && !cfg.Race {
+		if reported < 4 && !cfg.Race && cfg.Engine != "httpsim" {
 			out, err := runTimeout(5*time.Minute, b.scratch, env, b.worker, "-minimise", path, "-minout", minPath, "-minbudget", "250", "-scratch", filepath.Join(b.scratch, "min"))
 			if err == nil {
 				os.Rename(minPath, path)
@@ -384,7 +386,15 @@ func runCheck(prop, tier string) int {
 				continue
 			}
 		}
-		if !cfg.Race {
+		if cfg.Engine == "httpsim" {
+			hj, _ := json.Marshal(map[string]any{"replay": path})
+			out, _ := runTimeout(3*time.Minute, b.scratch, append(append([]string{}, env...), "VERIF_HTTP="+string(hj)), b.worker, "-test.run", "^TestVerifHTTPSim$", "-test.count=1")
+			if !strings.Contains(out, "VIOLATION property=") {
+				fmt.Fprintf(os.Stderr, "verif: replay of %s did not reproduce %s\n", path, k)
+				exit = 2
+				continue
+			}
+		} else if !cfg.Race {
 			_, err := runTimeout(3*time.Minute, b.scratch, env, b.worker, "-replay", path, "-scratch", filepath.Join(b.scratch, "rep"))
 			code := exitCode(err)
 			if code != 1 {
@@ -468,6 +478,12 @@ func runWorker(b *build, env []string, cfg checkCfg, prop, tier string, seed, fr
 	os.RemoveAll(scratch)
 	cmd := exec.Command(b.worker, "-engine", cfg.Engine, "-prop", prop, "-tier", tier, "-seed", fmt.Sprint(seed), "-from", fmt.Sprint(from), "-stride", fmt.Sprint(stride), "-runs", "200", "-budget", left.String(), "-scratch", scratch)
 	cmd.Env = env
+	if cfg.Engine == "httpsim" {
+		os.MkdirAll(scratch, 0o755)
+		cmd = exec.Command(b.worker, "-test.run", "^TestVerifHTTPSim$", "-test.count=1", "-test.timeout=0")
+		hj, _ := json.Marshal(map[string]any{"seed": seed, "from": from, "stride": stride, "budget_s": int(left.Seconds())})
+		cmd.Env = append(append([]string{}, env...), "VERIF_HTTP="+string(hj), "TMPDIR="+scratch)
+	}
 	cmd.Dir = b.scratch
 	stdout, _ := cmd.StdoutPipe()
 	var stderr bytes.Buffer
@@ -696,12 +712,18 @@ func runReplay(path string) int {
 	if !ok {
 		die(2, "unknown property %s", rf.Property)
 	}
-	if cfg.Engine == "httpsim" {
-		return replayHTTP(path, rf)
-	}
 	b := prepare(cfg.Race, cfg.Engine)
 	defer os.RemoveAll(b.scratch)
 	env := append(b.env, "VERIF_VCONV="+b.vconv)
+	if cfg.Engine == "httpsim" {
+		hj, _ := json.Marshal(map[string]any{"replay": path})
+		out, _ := runTimeout(5*time.Minute, b.scratch, append(append([]string{}, env...), "VERIF_HTTP="+string(hj)), b.worker, "-test.run", "^TestVerifHTTPSim$", "-test.count=1")
+		fmt.Print(out)
+		if strings.Contains(out, "VIOLATION property=") {
+			return 1
+		}
+		return 0
+	}
 	if rf.Plan == nil {
 		// crash of the worker: re-run that run index
 		out, err := runTimeout(5*time.Minute, b.scratch, env, b.worker, "-engine", cfg.Engine, "-prop", rf.Property, "-seed", fmt.Sprint(rf.Seed), "-from", fmt.Sprint(rf.Run), "-runs", "1", "-scratch", filepath.Join(b.scratch, "rep"))
